@@ -966,6 +966,18 @@ fn c03(em: &mut Em, rng: &mut Rng, thorough: bool) {
           v.push(format!("\u{1b}[38;5;{}m", e)); v.push(format!("\u{1b}[38;{};1m", e)); v.push(format!("\u{1b}[48;2;1;{};3m", e)); v.push(format!("\u{1b}[31;{}m", e)); }
       let mut it3 = v.into_iter();
       events_opt(em, rng, &mut |_r| it3.next()); }
+    // low-byte look-alikes: U+01xx / U+04xx ... characters whose low byte is ESC, BEL, BS, LF, CR, SO, SI, CAN, SUB, CSI, OSC, ST, a digit,
+    // ';', '?', '$', '[', ']', '\\', or a final — alone, after ESC, inside a CSI at every position, and inside an OSC payload
+    { let looks: Vec<char> = [0x1bu32, 0x07, 0x08, 0x09, 0x0a, 0x0d, 0x0e, 0x0f, 0x18, 0x1a, 0x9b, 0x9d, 0x9c, 0x30, 0x35, 0x39, 0x3b, 0x3f, 0x24, 0x5b, 0x5d, 0x5c, 0x20, 0x3e,
+                              0x6d, 0x48, 0x4a, 0x4b, 0x68, 0x6c, 0x41, 0x72, 0x63, 0x37, 0x38, 0x23, 0x25, 0x28, 0x29, 0x50, 0x52, 0x7f]
+          .iter().flat_map(|lo| [0x100u32 + lo, 0x400 + lo, 0x3000 + lo]).filter_map(char::from_u32).collect();
+      let mut v: Vec<String> = Vec::new();
+      for &c in looks.iter() {
+          v.push(format!("a{}b", c)); v.push(format!("\u{1b}{}x", c)); v.push(format!("\u{1b}[{}x", c)); v.push(format!("\u{1b}[5{}7m", c)); v.push(format!("\u{1b}[5;{}1m", c));
+          v.push(format!("\u{9b}?{}h", c)); v.push(format!("\u{1b}]0;a{}b\u{7}z", c)); v.push(format!("\u{1b}]{};t\u{7}z", c)); v.push(format!("\u{1b}]2;{}\u{1b}\\z", c)); v.push(format!("\u{1b}({}q", c)); v.push(format!("\u{1b}#{}q", c)); }
+      em.add("lookalike_strings", v.len() as u64);
+      let mut it4 = v.into_iter();
+      events_opt(em, rng, &mut |_r| it4.next()); }
     // every final byte 0x20..0x7e (and some non-ASCII) x 0..3 parameters x private flag: the dispatch tables
     let mut finals: Vec<char> = (0x20u32..0x7f).map(|c| char::from_u32(c).unwrap()).collect(); finals.extend(['\u{e9}', '\u{3042}', '\u{7f}', '\u{80}', '\u{ff12}', '\u{b2}', '\u{b9}', '\u{bd}', '\u{663}', '\u{2160}', '\u{96f6}']);
     let mut combos: Vec<String> = Vec::new();
